@@ -105,5 +105,34 @@ def d15_terminal_pka():
 CMDS["d15"] = d15_terminal_pka
 
 
+def c_asym_two_chars():
+    """C10: a two-character label_asym_id makes the assembled record unparsable."""
+    from pdb2pqr import cif, pdb
+
+    class Rows:
+        row_count = 1
+
+        def __init__(self, d):
+            self.d = d
+
+        def get_value(self, name, i):
+            return self.d[name]
+
+    row = {"group_PDB": "ATOM", "id": "1", "label_atom_id": "CA", "label_alt_id": ".", "label_comp_id": "GLY",
+           "label_asym_id": "AA", "auth_seq_id": "12", "pdbx_PDB_ins_code": "?", "Cartn_x": "1.250", "Cartn_y": "-2.500",
+           "Cartn_z": "30.125", "occupancy": "1.00", "B_iso_or_equiv": "20.00", "type_symbol": "C", "pdbx_formal_charge": "?"}
+    try:
+        a = pdb.ATOM(cif.atom_site_line(Rows(row), 0))
+        if a.res_seq == 12 and abs(a.x - 1.25) < 1e-9:
+            print("no longer fails")
+            return
+        print(f"STILL-FAILS misread: res_seq {a.res_seq} x {a.x}")
+    except ValueError as ex:
+        print("STILL-FAILS label_asym_id 'AA':", ex)
+
+
+CMDS["casym"] = c_asym_two_chars
+
+
 if __name__ == "__main__":
     CMDS[sys.argv[1]]()
